@@ -43,7 +43,7 @@ def true_edge_guard(f, pt, callee_pat):
         if not any(s["k"] == "call" and rx.search(s["callee"]) for s in srcs):
             continue
         negs = sum(1 for x in srcs if x["k"] == "un" and x["op"] == "Not")
-        true_lab = "otherwise" if negs % 2 == 0 else "sw:0"
+        true_lab = "sw:1" if negs % 2 == 0 else "sw:0"
         if lab == true_lab:
             return (bb, lab)
     return None
